@@ -10,6 +10,7 @@
      selection cards ks  the fresh-draw result for the contests ks (C07_selection (b))
      with_sizes ids ns   contests ids with sizes ns *)
 From SV Require Import Sampling Sampling_proofs.
+From SV Require NNM NNM_wf NNM_mono.
 From Coq Require Import Permutation Sorted.
 Open Scope Z_scope.
 
@@ -118,9 +119,29 @@ Example C10_continue_eq_redraw_nonvacuous :
   run_rounds ex_cards ex_st ex_ops = run_rounds ex_cards ex_st (map as_redraw ex_ops).
 Proof. split; [split; [exact ex_available' | split; [exact ex_grown | vm_compute; reflexivity]]|]. vm_compute. auto. Qed.
 
-(* C10_p_monotone (pval (xs ++ ys) <= pval xs for the tests whose overall value is the minimum of the history) is a
-   statement about the NonnegMean model (NNM.v) and is added with C05/C11; together with C10_data_prefix it gives
-   "measured risk non-increasing from round to round".  Placeholder only — no theorem here. *)
+(* "Consequently every assertion's measured risk is non-increasing from round to round": with C10_data_prefix the data of
+   a later round are xs ++ ys; the overall p-value of the two tests whose overall value is the minimum of the history
+   (ALPHA, betting — the tests the audit driver uses) can only decrease when observations are appended.  Statements
+   about the NonnegMean model (NNM.v, tied to NonnegMean.py by the C05/C11 correspondence); proofs in NNM_mono.v. *)
+Theorem C10_p_monotone_alpha : forall sqrtq e N t u xs ys,
+  (0 < u)%Q -> (0 < t < u)%Q -> NNM_wf.sample_ok N u xs -> NNM_wf.sample_ok N u (xs ++ ys) ->
+  xle (fst (NNM.alpha_mart sqrtq e N t u (xs ++ ys))) (fst (NNM.alpha_mart sqrtq e N t u xs)) = true.
+Proof. exact NNM_mono.alpha_pvalue_antitone. Qed.
+Print Assumptions C10_p_monotone_alpha.
+
+Theorem C10_p_monotone_betting : forall sqrtq, (forall x, (0 <= sqrtq x)%Q) -> forall b N t u xs ys,
+  (0 < u)%Q -> (0 < t < u)%Q -> NNM_wf.bet_ok b u -> NNM_wf.sample_ok N u xs -> NNM_wf.sample_ok N u (xs ++ ys) ->
+  xle (fst (NNM.betting_mart sqrtq b N t u (xs ++ ys))) (fst (NNM.betting_mart sqrtq b N t u xs)) = true.
+Proof. exact NNM_mono.betting_pvalue_antitone. Qed.
+Print Assumptions C10_p_monotone_betting.
+
+(* hence a confirmation at risk limit alpha survives any extension of the sample *)
+Theorem C10_confirmed_stays_confirmed : forall sqrtq e N t u xs ys alpha,
+  (0 < u)%Q -> (0 < t < u)%Q -> NNM_wf.sample_ok N u xs -> NNM_wf.sample_ok N u (xs ++ ys) ->
+  xle (fst (NNM.alpha_mart sqrtq e N t u xs)) (Fin alpha) = true ->
+  xle (fst (NNM.alpha_mart sqrtq e N t u (xs ++ ys))) (Fin alpha) = true.
+Proof. exact NNM_mono.alpha_confirmed_sticky. Qed.
+Print Assumptions C10_confirmed_stays_confirmed.
 
 (* `asn.proved = (asn.p_value <= con.risk_limit) or asn.proved`: an assertion once confirmed stays confirmed through any
    further rounds, whatever their p-values (larger, NaN, ...); it is set exactly by a p-value at or below the risk limit. *)
